@@ -185,6 +185,12 @@ def cases(tier, shard, nshards):
                 new = '"z"' if is_str(kind) else "99"
                 for i in window + [2 ** 63 - 1, -2 ** 63, 2 ** 64]:
                     yield Case("x := %s; x[%s] = %s; x" % (src, lit_int(i), new), dict(base, op="assign", i=str(i)))
+                    if not is_stream(kind) and expect(dict(base, op="assign", i=str(i))) == RAISE:
+                        # a write that is refused leaves the sequence as it was
+                        yield Case("x := %s; try (x[%s] = %s) catch _ -> null; x" % (src, lit_int(i), new), dict(base, op="refused_write", i=str(i), form="assign"))
+                        if kind == "list":
+                            yield Case("x := %s; try (remove x[%s]) catch _ -> null; x" % (src, lit_int(i)), dict(base, op="refused_write", i=str(i), form="remove"))
+                            yield Case("x := %s; try (x[%s] += 1) catch _ -> null; x" % (src, lit_int(i)), dict(base, op="refused_write", i=str(i), form="opassign"))
                     if kind == "list":
                         yield Case("x := %s; x{%s = %s}" % (src, lit_int(i), new), dict(base, op="update", i=str(i)))
                         yield Case("x := %s; y := remove x[%s]; [x, y]" % (src, lit_int(i)), dict(base, op="remove", i=str(i)))
@@ -283,6 +289,8 @@ def expect(m):
         if kind == "bytes":
             return ("exact", ["b", [int(x[1]) for x in F]])
         return ("exact", ["l", F])
+    if op == "refused_write":
+        return want_slice(kind, E, None, None)
     if op == "pop":
         if L == 0:
             return RAISE
